@@ -5,6 +5,8 @@
 //!        in lockstep: every request of the alphabet is applied to every discovered pair of
 //!        concrete states; one ndjson row per state with its outgoing edges
 //!        [to, request index, response index (memory), response index (redb)].
+//!        ("Reopen" closes and reopens the redb database; "Crash" copies the database file while the
+//!        store is open and continues on the copy: a reopen point without clean shutdown.)
 //!   kvv explore-cloud --alphabet A.json --maxver N --maxw W --out DIR [--threads 8]
 //!        the same for CloudKVVStore<MemoryKVVStore>; edges [to, request index, response index].
 //!   kvv run --alphabet A.json --seqs seqs.ndjson --out FILE
@@ -148,13 +150,39 @@ fn max_version(obs_t: &Value) -> i64 {
 // ---------------------------------------------------------------------------------------------
 // disk store instance: a private directory (tmpfs when available), reopen = drop + open again
 
-fn scratch_root() -> std::path::PathBuf {
+/// all database directories of this process live under <tmpfs or temp dir>/vkvv-<pid>/
+fn scratch_base() -> std::path::PathBuf {
     let shm = std::path::Path::new("/dev/shm");
     if shm.is_dir() {
         shm.to_path_buf()
     } else {
         std::env::temp_dir()
     }
+}
+
+fn scratch_root() -> std::path::PathBuf {
+    let p = scratch_base().join(format!("vkvv-{}", std::process::id()));
+    std::fs::create_dir_all(&p).expect("scratch root");
+    p
+}
+
+/// remove what killed runs left behind (directories of processes that no longer exist)
+fn cleanup_stale() {
+    if let Ok(rd) = std::fs::read_dir(scratch_base()) {
+        for e in rd.flatten() {
+            let name = e.file_name().to_string_lossy().to_string();
+            if let Some(pid) = name.strip_prefix("vkvv-") {
+                let alive = pid.parse::<u32>().map(|p| std::path::Path::new(&format!("/proc/{}", p)).exists());
+                if alive != Ok(true) {
+                    let _ = std::fs::remove_dir_all(e.path());
+                }
+            }
+        }
+    }
+}
+
+fn cleanup_own() {
+    let _ = std::fs::remove_dir_all(scratch_base().join(format!("vkvv-{}", std::process::id())));
 }
 
 struct RedbInst {
@@ -164,7 +192,7 @@ struct RedbInst {
 
 impl RedbInst {
     fn new() -> RedbInst {
-        let dir = tempfile::Builder::new().prefix("vkvv-").tempdir_in(scratch_root()).expect("tempdir");
+        let dir = tempfile::Builder::new().prefix("db-").tempdir_in(scratch_root()).expect("tempdir");
         let store = Some(RedbKVVStore::new(dir.path()));
         RedbInst { dir, store }
     }
@@ -186,9 +214,38 @@ impl RedbInst {
             }
         }
     }
+    /// crash point: the database file is copied as it is on disk while the store is still open
+    /// (no clean shutdown), and the store continues on the copy
+    fn crash_reopen(&mut self) -> Value {
+        let nd = tempfile::Builder::new().prefix("db-").tempdir_in(scratch_root()).expect("tempdir");
+        let copied = std::fs::copy(self.dir.path().join("redb"), nd.path().join("redb")).is_ok();
+        self.store = None;
+        if copied {
+            self.dir = nd;
+        }
+        let p = self.dir.path().to_path_buf();
+        match catch(|| RedbKVVStore::new(&p)) {
+            Ok(s) if copied => {
+                self.store = Some(s);
+                resp_json("ok", &[])
+            }
+            Ok(s) => {
+                self.store = Some(s);
+                resp_json("err:harness-copy", &[])
+            }
+            Err(_) => {
+                let fresh = tempfile::Builder::new().prefix("db-").tempdir_in(scratch_root()).expect("tempdir");
+                self.store = Some(RedbKVVStore::new(fresh.path()));
+                self.dir = fresh;
+                resp_json("panic", &[])
+            }
+        }
+    }
     fn apply(&mut self, r: &Value) -> Value {
         if r["op"] == "Reopen" {
             self.reopen()
+        } else if r["op"] == "Crash" {
+            self.crash_reopen()
         } else {
             apply_store(self.s(), r)
         }
@@ -196,7 +253,7 @@ impl RedbInst {
 }
 
 fn mem_apply(s: &MemoryKVVStore, r: &Value) -> Value {
-    if r["op"] == "Reopen" {
+    if r["op"] == "Reopen" || r["op"] == "Crash" {
         resp_json("ok", &[])
     } else {
         apply_store(s, r)
@@ -341,6 +398,9 @@ fn explore(kind: &'static str) {
     let maxver = arg_u64("maxver", 2) as i64;
     let maxw = arg_u64("maxw", 1) as i64;
     let threads = arg_u64("threads", 8) as usize;
+    // a faulty store can have far more reachable states than a correct one: beyond the cap new
+    // states are not numbered (edge target -1) and the run is reported as truncated
+    let max_states = arg_u64("max-states", 100_000);
     let out = arg("out").unwrap();
     std::fs::create_dir_all(&out).unwrap();
     let keys = Arc::new(keys);
@@ -404,7 +464,11 @@ fn explore(kind: &'static str) {
                     None => break,
                 };
                 let expand = if kind == "pair" {
-                    max_version(&nd.obs["m"]["t"]) <= maxver && max_version(&nd.obs["r"]["t"]) <= maxver
+                    // (states in which the two stores no longer give the same observation are recorded
+                    // but not expanded: from there the lockstep product only multiplies states)
+                    max_version(&nd.obs["m"]["t"]) <= maxver
+                        && max_version(&nd.obs["r"]["t"]) <= maxver
+                        && nd.obs["m"] == nd.obs["r"]
                 } else {
                     let user_max = |es: &Value| {
                         es.as_array()
@@ -479,10 +543,11 @@ fn explore(kind: &'static str) {
                             (oc, vec![intern(&shared.0, &rc)])
                         };
                         let key = digest(&post);
-                        let to = {
+                        let to: i64 = {
                             let mut g = shared.0.lock().unwrap();
                             match g.seen.get(&key) {
-                                Some(i) => *i,
+                                Some(i) => *i as i64,
+                                None if g.states >= max_states => -1,
                                 None => {
                                     let i = g.states;
                                     g.seen.insert(key, i);
@@ -492,7 +557,7 @@ fn explore(kind: &'static str) {
                                         Arc::new(NodeData { path, par: (id as i64, ri as u64 + 1), obs: post }),
                                     ));
                                     shared.1.notify_one();
-                                    i
+                                    i as i64
                                 }
                             }
                         };
@@ -530,7 +595,11 @@ fn explore(kind: &'static str) {
     let mut g = shared.0.lock().unwrap();
     g.pool.clear();
     std::fs::write(format!("{}/resps.json", out), serde_json::to_string(&g.resp_list).unwrap()).unwrap();
-    println!("{}", json!({"states": g.states, "edges": edges, "responses": g.resp_list.len(), "redb_rebuilds": rebuilds}));
+    println!(
+        "{}",
+        json!({"states": g.states, "edges": edges, "responses": g.resp_list.len(), "redb_rebuilds": rebuilds,
+               "truncated": g.states >= max_states})
+    );
 }
 
 /// replay request sequences from the initial state; one record per step
@@ -584,6 +653,7 @@ fn run_seqs() {
 
 fn main() {
     quiet_panics();
+    cleanup_stale();
     let cmd = std::env::args().nth(1).unwrap_or_default();
     match cmd.as_str() {
         "explore-pair" => explore("pair"),
@@ -594,4 +664,5 @@ fn main() {
             std::process::exit(2);
         }
     }
+    cleanup_own();
 }
